@@ -127,8 +127,15 @@ def build(ctx, prop_files, variants=("plain",), need_model=True):
     separate from proofs so extraction still works."""
     with BuildLock():
         rc, out = sh([sys.executable, os.path.join(VERIF, "tools", "gen_constants.py")], timeout=600)
-        if rc != 0:
-            # the library does not even compile / probes fail: nothing can be checked
+        if rc == 3 and os.path.exists(os.path.join(COQ, "Generated.v")):
+            # the library compiles but the constants translator no longer fits the source (a table / macro it reads was renamed or
+            # removed): the tie T1 is broken.  The check goes on with the constants of the last successful generation (so that the
+            # correspondence can still search for a failing input) and reports the broken tie as a violation in any case.
+            ctx.proof_build_ok = False
+            ctx.proof_build_log += "\nTIE T1 BROKEN: tools/gen_constants.py could not regenerate coq/Generated.v from the current source:\n" + out[-2500:]
+            ctx.tie_broken = True
+        elif rc != 0:
+            # the library does not even compile: nothing can be checked
             print(out[-4000:])
             raise SystemExit("build of /repo failed (gen_constants): cannot check")
         if not os.path.exists(os.path.join(COQ, "Makefile.coq")) or \
@@ -250,7 +257,9 @@ def proof_violation_if_broken(ctx):
         return
     if any(not ni for (_, _, ni) in ctx.violations):
         return   # a concrete failing input is already reported
-    bad = [o["theorem"] for o in ctx.obligations if not o["ok"]] or ["(build of proof dependencies failed)"]
+    bad = [o["theorem"] for o in ctx.obligations if not o["ok"]] or \
+          (["(tie T1: the constants translator tools/gen_constants.py no longer fits the source; theorems were checked against the constants of the last successful generation)"]
+           if getattr(ctx, "tie_broken", False) else ["(build of proof dependencies failed)"])
     ctx.violation("proof_broken.txt",
                   "Proof obligation(s) no longer check for %s: %s\n\nbuild log tail:\n%s\n" % (ctx.prop, ", ".join(bad), ctx.proof_build_log),
                   "proof obligation no longer checks: " + ", ".join(bad), no_input=True)
